@@ -1,7 +1,7 @@
-import FiberModel.C06.Spec
+import FiberModel.C06.Lemmas
 import FiberModel.Generated.C06Facts
 /-
-C06 — property theorems. The table `C06.Facts.rows` is regenerated from the fiber sources by
+C06 — property theorems (helper lemmas: Lemmas.lean). The table `C06.Facts.rows` is regenerated from the fiber sources by
 translator/c06 on every check run; `all_accessors_copy_when_immutable` and
 `all_accessors_yield_text` are closed by `decide` over the WHOLE table, so a source change that
 makes any accessor skip the copying conversion (or that the translator cannot classify) breaks the
@@ -34,27 +34,15 @@ theorem copying_atom_owned (st : Store) (site : Site) (s : Src) (hs : s.copiesWh
     on every return site reachable with `Immutable` set, only through copying atoms. -/
 theorem all_accessors_copy_when_immutable : Facts.rows.all Row.okImmutable = true := by decide
 
-/-- Rows whose reachable-under-Immutable return sites were all understood and are non-empty; the
-    non-Immutable half additionally needs every other return site to denote text at all. -/
-def Row.yieldsText (r : Row) : Bool :=
-  r.rets.all fun ret => !ret.srcs.isEmpty && ret.srcs.all fun s => s != .unknown && (s != .reqobj || r.kind == .bind)
-
 /-- **Obligation over the regenerated table** for the half without the option: every return site
     of every row is classified (no `unknown`). -/
 theorem all_accessors_yield_text : Facts.rows.all Row.yieldsText = true := by decide
 
-theorem okImmutable_atom {r : Row} (hr : r.okImmutable = true) {ret : Ret} (hret : ret ∈ r.rets)
-    (hreach : ret.reachableImmutable = true) {s : Src} (hs : s ∈ ret.srcs) (hobj : s ≠ .reqobj) :
-    s.copiesWhenImmutable = true := by
-  unfold Row.okImmutable at hr
-  rw [List.all_eq_true] at hr
-  have h1 := hr ret hret
-  simp only [hreach, Bool.not_true, Bool.false_or, Bool.and_eq_true, List.all_eq_true] at h1
-  have h2 := h1.2 s hs
-  rcases Bool.or_eq_true _ _ |>.mp h2 with h | h
-  · exact h
-  · simp only [Bool.and_eq_true, beq_iff_eq] at h
-    exact absurd h.2 hobj
+/-- **Obligation over the regenerated table.** Wherever a method of `Bind` hands a request or response
+    object (not text) to a binder, the binder's own extraction – keys, values and the decoded data – is
+    in the table too, hence (by `all_accessors_copy_when_immutable`) copying. This closes the one
+    exception (`reqobj`) the main theorems make. -/
+theorem bind_request_objects_extracted : Facts.rows.all (Row.bindCovered Facts.rows) = true := by decide
 
 /-- **Main theorem (Immutable half).** For every accessor of the regenerated table, every return
     site reachable with `Immutable` set, every atom it may yield, every state of the recycled storage
@@ -88,15 +76,6 @@ theorem values_valid_until_return (immutable : Bool) (r : Row) (hr : r ∈ Facts
   all_goals (refine ⟨_, rfl, ?_⟩; first | rfl | (cases immutable <;> rfl))
 
 /-! ### Derived values -/
-
-/-- Reading a sub-slice is slicing what the parent reads – in every state of the storage. -/
-theorem sub_read (v : Val) (off len : Nat) (st : Store) :
-    (v.sub off len).read st = ((v.read st).drop off).take len := by
-  cases v with
-  | owned bs => rfl
-  | view buf o l =>
-    simp only [Val.sub, Val.read]
-    rw [List.drop_take, List.drop_drop, List.take_take]
 
 /-- **Values derived from stable values are stable.** A sub-slice (substring, split piece, trimmed
     value) of a value that reads the same after a history reads the same after that history. -/
@@ -154,11 +133,6 @@ example : ∃ h : List Overwrite, (Val.view 0 3 5).read (Store.after (fun _ => b
 
 /-! ### Model ⊑ Spec: what the model yields passes the property oracle of the driver -/
 
-/-- What the harness records for ONE value `v` captured while the storage was `st`: its content at
-    capture, at the end of the handler (storage untouched), and – with the option – after history `h`. -/
-def observeVal (immutable : Bool) (st : Store) (h : List Overwrite) (v : Val) : Obs :=
-  { during := [v.read st], atEnd := [v.read st], after := if immutable then some [v.read (st.after h)] else none }
-
 /-- **The model meets the specification.** For every accessor of the regenerated table, every return
     site reachable in the configuration, every atom, storage state and later history, the observation
     of the value the model yields violates no clause of `specViolation` (correct, stable until return,
@@ -206,5 +180,8 @@ example :
 example : (Row.mk .ctx "X" [⟨.always, [.imm, .alias]⟩]).okImmutable = false := by decide
 example : (Row.mk .ctx "X" [⟨.immOnly, [.owned]⟩, ⟨.mutOnly, [.alias]⟩]).okImmutable = true := by decide
 example : (Row.mk .ctx "X" [⟨.always, [.unknown]⟩]).okImmutable = false := by decide
+/-- a Bind method passing a request object to a binder the table does not know is not covered -/
+example : (Row.mk .bind "Bind.Trailer:source" [⟨.always, [.reqobj]⟩]).bindCovered Facts.rows = false := by decide
+example : (Facts.rows.filter fun r => r.kind == .bind && r.rets.any fun ret => ret.srcs.contains .reqobj).length = 5 := by decide
 
 end C06
